@@ -5,18 +5,19 @@ PROP = dict(
     trusted_base=[
         "hand-written Gallina model coq/Mempool/Model.v of pkg/core/mempool/mem_pool.go (tied by correspondence on the public API, not by translation)",
         "coq/Harness/C08.v: the specification of the property text evaluated on the observations (obs_inv, add_ok_spec)",
-        "harness/c08.go: stub Feer, transaction universe builder, direct evaluation of the invariant on the getters",
+        "harness/c08.go, c08conc.go: stub Feer, transaction universe builder, direct evaluation of the invariant on the getters; for concurrent cases the goroutine-dump test for 'parked at the pool lock' and the hook pkg/core/mempool/verif_hooks.go",
     ],
     assumptions=[
         "hashes identify transactions; no two transactions name each other or themselves in Conflicts (pre-image resistance); no duplicate Conflicts attribute in one transaction (verifyTxAttributes); unique signers (Transaction.isValid)",
         "SystemFee + NetworkFee < 2^64 per transaction, balances < 2^255; int64 sums of network fees do not overflow",
         "the Feer's answers (balances, fee per byte) change only when RemoveStale runs (Blockchain.storeBlock calls it under the chain lock)",
         "a Notary-sent transaction has at least two signers (NotaryAssisted rules of verifyAndPoolTx)",
-        "operations are sequential (the pool's mutex); the data payload, events and metrics are not modelled; blockStamp is a table beside the pool",
+        "every public operation is ONE region of the pool's RWMutex (Mempool/Conc.v: then every interleaving is a sequential order); tied by forced interleavings of 2-3 goroutines (lock held from the harness through a hook, Feer callbacks as rendezvous) with a linearizability check against the real pool and the model; sync.RWMutex itself (queued readers admitted before the next writer) is trusted; the data payload, events and metrics are not modelled; blockStamp is a table beside the pool",
+        "the stored fee per byte follows increases only OR every change (repair F57): both behaviours are proved and one of them must explain a whole case",
     ],
     modelled="mempool.Pool (Add, Remove, RemoveStale, Verify, HasConflicts) modelled by hand and proved; the Go code is tied to the model by differential evaluation of operation sequences through the public getters only (fees/conflicts/oracleResp tables are observed indirectly through Verify, HasConflicts and later Adds)",
 )
 META = dict(
-    text="Proved in Coq for all operation sequences (induction over the sequence) on a mechanism-level model of mempool.Pool with the repairs F4/F5: the invariant (no duplicates, slice/map bijection, length <= capacity, priority order, per-payer fee sum = sum of pooled fees <= balance incl. notary depositors, exact Conflicts reverse index, no two pooled transactions in conflict, exact oracle index hence at most one response per request) is reachable-closed; no nil dereference is reachable; a successful Add removes only conflicting transactions, the replaced oracle response and the strictly lower last entry of a full pool; a failed Add leaves the state unchanged up to a cached balance, and states equal in that sense answer every later operation identically (congruence proved); RemoveStale's resend decision (SetResendThreshold) changes nothing in the pool and hands exactly the due kept items to the callback. The unrepaired code is refuted in Coq by two witnesses (F4, F5), which the correspondence check rediscovers on the implementation. The Go code is tied to the model by random operation sequences compared after every step through the public API, and the invariant is evaluated directly on what the getters return.",
-    note="Trusted: Coq kernel and vm_compute, the hand-written model and its tie by differential testing through public getters only, the Go harness with its stub Feer, the orchestration script. Assumed: collision/pre-image resistance of hashes (abstract ids, no mutual Conflicts), fee and balance magnitudes far from the integer limits, Feer answers constant between RemoveStale calls, sequential use (locking not modelled).",
+    text="Proved in Coq for all operation sequences (induction over the sequence) on a mechanism-level model of mempool.Pool with the repairs F4/F5: the invariant (no duplicates, slice/map bijection, length <= capacity, priority order, per-payer fee sum = sum of pooled fees <= balance incl. notary depositors, exact Conflicts reverse index, no two pooled transactions in conflict, exact oracle index hence at most one response per request) is reachable-closed; no nil dereference is reachable; a successful Add removes only conflicting transactions, the replaced oracle response and the strictly lower last entry of a full pool; a failed Add leaves the state unchanged up to a cached balance, and states equal in that sense answer every later operation identically (congruence proved); RemoveStale's resend decision (SetResendThreshold) changes nothing in the pool and hands exactly the due kept items to the callback. The unrepaired code is refuted in Coq by two witnesses (F4, F5), which the correspondence check rediscovers on the implementation. Concurrent callers: with every operation one lock region, every schedule of concurrently issued operations is a sequential order of them and the invariant holds whenever the lock is free (proved; a check-then-act split of Add is refuted). The Go code is tied to the model by random operation sequences compared after every step through the public API, by forced interleavings of 2-3 goroutines checked for linearizability (against the real pool run sequentially and against the model) with readers queued behind every write region, and the invariant is evaluated directly on what the getters and those readers return. Finding F59: Verify writes the fee table under the read lock.",
+    note="Trusted: Coq kernel and vm_compute, the hand-written model and its tie by differential testing through public getters only, the Go harness with its stub Feer, the orchestration script. Assumed: collision/pre-image resistance of hashes (abstract ids, no mutual Conflicts), fee and balance magnitudes far from the integer limits, Feer answers constant between RemoveStale calls, every operation one lock region (modelled as such; interleavings of regions are linearizable by theorem and checked on forced schedules; sync.RWMutex trusted).",
 )
